@@ -82,13 +82,14 @@ S = {
    detection=[("C19","caught","86 s","p3-output (three-party tier; the compiled tier needs the same collision)"),("C01","not caught (C01 does not generate joins; joins are C19's domain)","32 s","")]),
  "C02b": dict(breaks="C02", file="mpc/resharing.rs (MixedMultiply / ApplyPermutation arm of compute_graph_resharing)",
    needs="MixedMultiply (or ApplyPermutation) with a private second operand whose first operand is a pending product of two private values not reshared for another consumer",
-   detection=[]),
+   detection=[('C02', 'caught', '3 s', 'p3-output'), ('C01', 'not caught (expected: global evaluation is unaffected)', '45 s', '')]),
  "C03b": dict(breaks="C03", file="mpc/resharing.rs (local_operation_handler: any -> all)",
    needs="a multi-input non-broadcasting local operation (CreateTuple, CreateVector, Concatenate, ...) holding an un-reshared private product next to a reshared value, revealed to a party: raw product shares are sent",
-   detection=[("C03 (with the container-of-products family)","MISSED","160 s",""),("C03 (family extended with product + non-product containers)","MISSED: the matching cases need 2^15 relevant tape assignments x 8 inputs, above the quick budget of the exhaustive tier (they are within the thorough budget)","56 s","")]),
+   detection=[("C03 (with the container-of-products family)","MISSED","160 s",""),("C03 (family extended with product + non-product containers)","MISSED: the matching cases need 2^15 relevant tape assignments x 8 inputs, above the quick budget of the exhaustive tier (they are within the thorough budget)","56 s",""),("C03 (after adding the pinned exhaustive case CreateTuple(x*y, w), 2^15 tapes x 8 assignments)","caught","13 s","view-distribution-differs (pinned tuple-of-product-and-input)")],
+   note="strengthened: c03 pinned case; generated cases of this shape are only within the thorough budget"),
  "C04b": dict(breaks="C04", file="graphs.rs (Operation::is_const_optimizable as an explicit list)",
    needs="CuckooToPermutation / DecomposeSwitchingMap whose arguments are all constants: folded into a Constant",
-   detection=[]),
+   detection=[('C04', 'caught', '10 s', 'opt-random-folded'), ('C06', 'caught', '2 s', 'output-value')]),
  "C05b": dict(breaks="C05", file="mpc/mpc_truncate.rs (TruncateMPC2K step 0 offset)",
    needs="INT128, power-of-two divisor, input an exact multiple of the divisor, tape with zero low mask bits: floor - 1",
    detection=[("C05","caught","4 s","pow2-out-of-band")]),
@@ -101,20 +102,21 @@ S = {
    detection=[("C07","caught","8 s","mismatch:small-logsum:final-state")]),
  "C09b": dict(breaks="C09", file="evaluators.rs (evaluate_graph frees the output node's value)",
    needs="the designated output node is also an argument of a later node (also inside Call/Iterate bodies): evaluation panics",
-   detection=[]),
+   detection=[('C09', 'caught', '1 s', 'panic:evaluators.rs:138 (stock evaluate_graph)'), ('C07', 'caught', '94 s', 'recipe-inlined-eval-panic')]),
  "C11b": dict(breaks="C11", file="graphs.rs (Context::set_node_name inserts before the duplicate test)",
    needs="a rejected duplicate node name followed by a lookup by name",
    detection=[("C11","caught","1 s","err-mutates-getters:set_node_name (pinned walkthrough; also in the campaigns)")]),
  "C12b": dict(breaks="C12 (and C11)", file="graphs.rs (add_node_internal: 'callee graph must be older' check removed)",
    needs="graph A created, graph B created and finalized afterwards, then a Call/Iterate node in A refers to B: the context evaluates but its serialization is rejected",
-   detection=[("C12 (as committed when first tried: recipes always build callees first)","MISSED","69 s",""),("C11","caught","4 s","guard-missing:gdep-not-older"),("C12 (after adding the rt-order sub-check: contexts built through unusual API call orders)","caught","see RESULTS in DESIGN 7.6","order-rt-deser-err")],
+   detection=[("C12 (as committed when first tried: recipes always build callees first)","MISSED","69 s",""),("C11","caught","4 s","guard-missing:gdep-not-older"),("C12 (after adding the rt-order sub-check: contexts built through unusual API call orders)","caught","<1 s","order-rt-deser-err")],
    note="strengthened: c12_order.rs"),
  "C18b": dict(breaks="C18", file="mpc/mpc_radix_sort.rs (first-chunk handling)",
    needs="compiled sort of private data with an odd key width >= 3",
    detection=[("C18","caught","8 s","sort-compiled-shared-sum")]),
  "C19b": dict(breaks="C19", file="mpc/mpc_psi.rs (same_non_key_headers)",
    needs="compiled Union join, key pair with different names, first table has a payload column named like the second table's key column",
-   detection=[]),
+   detection=[('C19 (as committed when first tried: payload names x0/y0 never clash with a key header)', 'MISSED', '186 s', ''), ("C19 (after letting the first table's payload column carry the second table's key header name)", 'caught', '41 s', 'compiler-rejected-join (the compiled union fails with a type error where plaintext accepts; with equal column types the result differs)')],
+   note='strengthened: c19_util payload naming'),
 }
 
 for sid, d in S.items():
